@@ -633,4 +633,84 @@ theorem preVia_keys {env : Env} {h : Header} {k : Bytes} (hm : k ∈ keys (preVi
     intro hr
     exact removed_not_in_keys (by rw [removedKeys_framing]; exact hr) h1
 
+/-! ### helper lemmas of the element-level and exchange theorems -/
+
+theorem framingErrs_no_loop (h : Header) : Err.loop ∉ framingErrs h := by
+  unfold framingErrs framingHeader
+  cases hc : framingCL h with
+  | none => simp
+  | some h1 =>
+    rcases framingTE_err h1 with h0 | h0 <;> simp [h0]
+
+theorem removeHopByHop_nil : removeHopByHop [] = [] := by rw [removeHopByHop_eq_filter]; rfl
+
+/-- `strings.Split` distributes over a separator: the pieces of `a ++ sep ++ b` are the pieces of
+`a` followed by the pieces of `b`. -/
+theorem splitAux_append_sep (sep : UInt8) (b : Bytes) : ∀ (a cur : Bytes),
+    splitAux sep (a ++ sep :: b) cur = splitAux sep a cur ++ splitAux sep b [] := by
+  intro a
+  induction a with
+  | nil => intro cur; simp [splitAux]
+  | cons c r ih =>
+    intro cur
+    by_cases hc : c = sep
+    · subst hc; simp [splitAux, ih]
+    · have : (c == sep) = false := by simpa using hc
+      simp [splitAux, this, ih]
+
+theorem split_append_sep (a b : Bytes) (sep : UInt8) : split (a ++ sep :: b) sep = split a sep ++ split b sep :=
+  splitAux_append_sep sep b a []
+
+theorem splitAux_no_sep (sep : UInt8) : ∀ (a cur : Bytes), sep ∉ a → splitAux sep a cur = [cur.reverse ++ a] := by
+  intro a
+  induction a with
+  | nil => intro cur _; simp [splitAux]
+  | cons c r ih =>
+    intro cur hn
+    have hc : ¬ c = sep := fun h => hn (by simp [h])
+    have hr : sep ∉ r := fun h => hn (by simp [h])
+    have : (c == sep) = false := by simpa using hc
+    simp [splitAux, this, ih (c :: cur) hr]
+
+theorem split_no_sep (a : Bytes) (sep : UInt8) (hn : sep ∉ a) : split a sep = [a] := by
+  show splitAux sep a [] = [a]
+  simpa using splitAux_no_sep sep a [] hn
+
+/-- A line written as "existing chain, entry": its comma-separated elements are the elements of
+the existing chain, unchanged and in order, followed by exactly one more — the entry behind the
+space of ", ". -/
+theorem appended_elements (chain entry : Bytes) (hc : comma ∉ entry) :
+    split (chain ++ commaSp ++ entry) comma = split chain comma ++ [32 :: entry] := by
+  have h32 : comma ∉ (32 :: entry) := by
+    intro hm
+    rcases List.mem_cons.mp hm with h | h
+    · exact absurd h (by decide)
+    · exact hc h
+  have : chain ++ commaSp ++ entry = chain ++ comma :: (32 :: entry) := by
+    simp [commaSp, comma, strBytes, List.append_assoc]
+  rw [this, split_append_sep, split_no_sep _ _ h32]
+
+theorem digit_bounds (c : Char) (hd : c.isDigit = true) : 48 ≤ c.toNat ∧ c.toNat ≤ 57 := by
+  unfold Char.isDigit at hd
+  simp only [Bool.and_eq_true, decide_eq_true_eq, ge_iff_le] at hd
+  exact ⟨UInt32.le_iff_toNat_le.mp hd.1, UInt32.le_iff_toNat_le.mp hd.2⟩
+
+/-- Decimal digits contain no comma. -/
+theorem natDigits_no_comma (n : Nat) : comma ∉ natDigits n := by
+  unfold natDigits
+  intro hm
+  obtain ⟨c, hc, he⟩ := List.mem_map.mp hm
+  have hb := digit_bounds c (Nat.isDigit_of_mem_toDigits (by decide) (by decide) hc)
+  have h44 : (UInt8.ofNat c.toNat).toNat = 44 := by rw [he]; rfl
+  rw [UInt8.toNat_ofNat'] at h44
+  omega
+
+/-- The proxy's own Via entry contains no comma when its name and boundary contain none (the
+protocol version is digits and a dot). -/
+theorem viaEntry_no_comma (env : Env) (hn : comma ∉ env.name) (hb : comma ∉ env.boundary) : comma ∉ viaEntry env := by
+  have hd : ∀ n, comma ∉ natDigits n := natDigits_no_comma
+  unfold viaEntry tag
+  simp only [List.mem_append, List.mem_cons, List.not_mem_nil, not_or]
+  refine ⟨⟨⟨⟨hd _, by decide⟩, hd _⟩, by decide⟩, ⟨hn, by decide⟩, hb⟩
+
 end Martian.HttpSpec
